@@ -102,6 +102,10 @@ type MemFS struct {
 	nextFD  int
 	events  []LedgerEvent
 	nOps    int64
+	// fault injection: the call that makes nOps equal to faultAt fails with
+	// EIO and has no effect
+	faultAt  int64
+	faultHit string
 }
 
 // NewMemFS returns an empty file system containing only the root directory.
@@ -154,6 +158,35 @@ func (fs *MemFS) LogLen() int {
 	fs.mu.Lock()
 	defer fs.mu.Unlock()
 	return len(fs.log)
+}
+
+// FailOp arms fault injection: the n-th file-system call from now on (n >= 1)
+// fails with EIO and has no effect, unless it is a Close or Sync (those always
+// succeed; such an n injects nothing). n = 0 disarms.
+func (fs *MemFS) FailOp(n int64) {
+	fs.mu.Lock()
+	defer fs.mu.Unlock()
+	fs.faultHit = ""
+	if n <= 0 {
+		fs.faultAt = 0
+		return
+	}
+	fs.faultAt = fs.nOps + n
+}
+
+// FaultHit describes the call that was failed ("" if none was yet).
+func (fs *MemFS) FaultHit() string {
+	fs.mu.Lock()
+	defer fs.mu.Unlock()
+	return fs.faultHit
+}
+
+func (fs *MemFS) fault(op, path string) error {
+	if fs.faultAt == 0 || fs.nOps != fs.faultAt {
+		return nil
+	}
+	fs.faultHit = op + " " + path + " @" + callerSite()
+	return &PathError{Op: op, Path: path, Err: errEIO}
 }
 
 // Ops returns the number of file-system calls served.
@@ -458,6 +491,9 @@ func (fs *MemFS) openFile(name string, flag int, perm FileMode) (*File, error) {
 	fs.mu.Lock()
 	defer fs.mu.Unlock()
 	fs.nOps++
+	if err := fs.fault("open", name); err != nil {
+		return nil, err
+	}
 	if _, isDir := fs.dirs[p]; isDir {
 		if flag&(O_WRONLY|O_RDWR) != 0 {
 			return nil, &PathError{Op: "open", Path: name, Err: errEISDIR}
@@ -496,6 +532,9 @@ func (fs *MemFS) stat(name string) (FileInfo, error) {
 	fs.mu.Lock()
 	defer fs.mu.Unlock()
 	fs.nOps++
+	if err := fs.fault("stat", name); err != nil {
+		return nil, err
+	}
 	if _, ok := fs.dirs[p]; ok {
 		return memInfo{name: filepath.Base(p), dir: true}, nil
 	}
@@ -529,6 +568,9 @@ func (fs *MemFS) remove(name string) error {
 	fs.mu.Lock()
 	defer fs.mu.Unlock()
 	fs.nOps++
+	if err := fs.fault("remove", name); err != nil {
+		return err
+	}
 	if _, ok := fs.dirs[p]; ok {
 		if fs.hasChildren(p) {
 			return &PathError{Op: "remove", Path: name, Err: errENOTEM}
@@ -550,6 +592,9 @@ func (fs *MemFS) removeAll(name string) error {
 	fs.mu.Lock()
 	defer fs.mu.Unlock()
 	fs.nOps++
+	if err := fs.fault("removeall", name); err != nil {
+		return err
+	}
 	pre := p + "/"
 	var files, dirs []string
 	for f := range fs.names {
@@ -580,6 +625,9 @@ func (fs *MemFS) rename(oldpath, newpath string) error {
 	fs.mu.Lock()
 	defer fs.mu.Unlock()
 	fs.nOps++
+	if err := fs.fault("rename", oldpath); err != nil {
+		return err
+	}
 	if _, ok := fs.dirs[op]; ok {
 		return &LinkError{Op: "rename", Old: oldpath, New: newpath, Err: errors.New("vos: directory rename not supported")}
 	}
@@ -605,6 +653,9 @@ func (fs *MemFS) truncate(name string, size int64) error {
 	fs.mu.Lock()
 	defer fs.mu.Unlock()
 	fs.nOps++
+	if err := fs.fault("truncate", name); err != nil {
+		return err
+	}
 	ino, ok := fs.names[p]
 	if !ok {
 		if _, isDir := fs.dirs[p]; isDir {
@@ -636,6 +687,9 @@ func (fs *MemFS) mkdir(name string, all bool) error {
 	fs.mu.Lock()
 	defer fs.mu.Unlock()
 	fs.nOps++
+	if err := fs.fault("mkdir", name); err != nil {
+		return err
+	}
 	if _, ok := fs.names[p]; ok {
 		return &PathError{Op: "mkdir", Path: name, Err: errENOTDI}
 	}
@@ -678,6 +732,9 @@ func (fs *MemFS) mkdirTemp(dir, pattern string) (string, error) {
 	fs.mu.Lock()
 	defer fs.mu.Unlock()
 	fs.nOps++
+	if err := fs.fault("mkdirtemp", dir); err != nil {
+		return "", err
+	}
 	if _, ok := fs.dirs[d]; !ok {
 		return "", &PathError{Op: "mkdirtemp", Path: dir, Err: errENOENT}
 	}
@@ -729,6 +786,9 @@ func (fs *MemFS) read(f *File, b []byte) (int, error) {
 	fs.mu.Lock()
 	defer fs.mu.Unlock()
 	fs.nOps++
+	if err := fs.fault("read", f.name); err != nil {
+		return 0, err
+	}
 	if err := fs.usable(f, "read"); err != nil {
 		return 0, err
 	}
@@ -750,6 +810,9 @@ func (fs *MemFS) readAt(f *File, b []byte, off int64) (int, error) {
 	fs.mu.Lock()
 	defer fs.mu.Unlock()
 	fs.nOps++
+	if err := fs.fault("read", f.name); err != nil {
+		return 0, err
+	}
 	if err := fs.usable(f, "read"); err != nil {
 		return 0, err
 	}
@@ -789,6 +852,9 @@ func (fs *MemFS) write(f *File, b []byte) (int, error) {
 	fs.mu.Lock()
 	defer fs.mu.Unlock()
 	fs.nOps++
+	if err := fs.fault("write", f.name); err != nil {
+		return 0, err
+	}
 	if err := fs.usable(f, "write"); err != nil {
 		return 0, err
 	}
@@ -813,6 +879,9 @@ func (fs *MemFS) writeAt(f *File, b []byte, off int64) (int, error) {
 	fs.mu.Lock()
 	defer fs.mu.Unlock()
 	fs.nOps++
+	if err := fs.fault("write", f.name); err != nil {
+		return 0, err
+	}
 	if err := fs.usable(f, "write"); err != nil {
 		return 0, err
 	}
@@ -859,6 +928,9 @@ func (fs *MemFS) fstat(f *File) (FileInfo, error) {
 	fs.mu.Lock()
 	defer fs.mu.Unlock()
 	fs.nOps++
+	if err := fs.fault("stat", f.name); err != nil {
+		return nil, err
+	}
 	if err := fs.usable(f, "stat"); err != nil {
 		return nil, err
 	}
@@ -875,6 +947,9 @@ func (fs *MemFS) ftruncate(f *File, size int64) error {
 	fs.mu.Lock()
 	defer fs.mu.Unlock()
 	fs.nOps++
+	if err := fs.fault("truncate", f.name); err != nil {
+		return err
+	}
 	if err := fs.usable(f, "truncate"); err != nil {
 		return err
 	}
